@@ -794,6 +794,40 @@ def check_k6_k7(chk, m, cfg):
                 continue
             ok = first in names and names.index(first) < names.index(then)
             chk.ob("K7.delivery", "%s[%s]" % (name, cfg), ok, "%s: %s precedes %s" % (name, first, then), f.loc, name)
+    # console_process runs the console until it WAITS for more input: a command that yields is resumed until it has finished
+    # (nothing else will resume it on this route).  Every way out of the run loop is decided by console_run's own result and
+    # cannot be taken while that result is PT_YIELDED.
+    fp = m.fn("console_process")
+    try:
+        wy = build.compile_text("c15_yield.c", "#include <librfn/protothreads.h>\nint w_y(void) { return PT_YIELDED; }\n")
+        YIELDED = paths.enumerate_paths(wy.fn("w_y"), wy)[0].ret[2]
+    except Exception:
+        YIELDED = None
+    if YIELDED is not None:
+        psegs = [(s0, q) for s0, q in paths.enumerate_segments(fp, m) if q.end != "unreachable"]
+        for s0, q in psegs:
+            if q.end != "ret":
+                continue
+            runs = [e for e in q.events if e.kind == "call" and e.callee == "console_run"]
+            if not runs:
+                # a return that no console_run precedes on this segment: fine only if none can precede it at all
+                if s0 == fp.entry.name:
+                    continue
+            decided = None
+            for c_, t_, i_ in q.conds:
+                for r_ in runs:
+                    if paths.contains(c_, lambda x: x == r_.res):
+                        try:
+                            bits = 32
+                            env = {r_.res: YIELDED}
+                            decided = paths.cond_holds((c_, t_, i_), env)      # can this exit be taken while the result is YIELDED?
+                        except paths.NoValue:
+                            decided = None
+            chk.ob("K7.process-runs-to-wait", "console_process[%s] %s..ret" % (cfg, s0.lstrip("%")), decided is False,
+                   "console_process leaves its run loop only on a result of console_run other than PT_YIELDED" if decided is False else
+                   "console_process can return while console_run's last result is PT_YIELDED (the exit is decided by %s): a command "
+                   "that yields is left half-run until another character arrives - or for ever, at the end of the input" %
+                   ("something other than that result" if decided is None else "a test that PT_YIELDED passes"), q.ret_inst.loc, fp.name)
     fe = m.fn("console_eval")
     chk.note_fn(fe)
     allowed = {"ringbuf_put", "fibre_run", "__assert_fail"}
@@ -883,6 +917,81 @@ def spec_step(st, c, nargv):
             return ("NUL", ("G", 0, argc))
         return None                         # text glued to a closing quote
     raise AssertionError(mode)
+
+
+def check_argv_complete(chk, m, cfg, L):
+    """K3.argv-complete: "at most four arguments that are NUL-terminated strings inside the line buffer" - a command may read
+    any argv[k]: the tokeniser leaves EVERY element pointing into the line buffer, the ones beyond argc included.  Accepted: a
+    padding loop (index carried from argc, +1 per round, leaves at lengthof(argv), each round stores an address inside the
+    scratch buffer into argv[index]), or stores to every constant index 1..N-1 before the tokenising loop is entered."""
+    fn = m.fn("do_tokenize")
+    ca = carg(fn)
+    buf_off, buf_sz = L["scratch.buf"]
+    argv_off, argv_sz = L["argv"]
+    argc_off = L["argc"][0]
+    N = argv_sz // m.ptr_size
+    segs = [(s0, p) for s0, p in paths.enumerate_segments(fn, m, call_effects={"strlen": [], "__ctype_b_loc": [], "isspace": []})
+            if p.end != "unreachable"]
+
+    def in_buf(v):
+        if isinstance(v, tuple) and v and v[0] == "sym":
+            # a value computed before the loop (buf + strlen(buf)): resolve it in the IR
+            d = fn.defs.get(v[1])
+            try:
+                pp = flow.resolve_ptr(d.value, m) if d is not None else None
+            except Exception:
+                pp = None
+            return pp is not None and pp.root.k == "arg" and pp.root.name == fn.args[ca].name and buf_off <= pp.off <= buf_off + buf_sz
+        r, o, var = ptr_parts(v) if isinstance(v, tuple) and v and v[0] in ("p", "arg") else ((None,), 0, ())
+        return r == ("arg", ca) and buf_off <= o <= buf_off + buf_sz
+    # (a) constant-index stores made before the first loop head
+    pre = set()
+    for s0, p in segs:
+        if s0 != fn.entry.name:
+            continue
+        here = set()
+        for e in p.events:
+            if e.kind == "store":
+                r, o, var = ptr_parts(e.ptr)
+                if r == ("arg", ca) and not var and argv_off <= o < argv_off + argv_sz and in_buf(e.val):
+                    here.add((o - argv_off) // m.ptr_size)
+        pre = here if not pre else (pre & here)
+    # (b) a padding loop
+    pad = False
+    for s0, p in segs:
+        if p.end != "cut:" + s0:
+            continue
+        for e in p.events:
+            if e.kind != "store":
+                continue
+            r, o, var = ptr_parts(e.ptr)
+            if r == ("arg", ca) and o == argv_off and len(var) == 1 and var[0][1] == m.ptr_size and strip_casts(var[0][0])[0] == "sym" and in_buf(e.val):
+                iv = strip_casts(var[0][0])
+                step = strip_casts((getattr(p, "carried", None) or {}).get(iv[1], ("?",)))
+                stepped = step[0] == "b" and step[1] == "add" and strip_casts(step[3]) == iv and step[4][0] == "c" and step[4][2] == 1
+                bound = any(strip_casts(c)[0] == "icmp" and strip_casts(c)[1] in ("ult", "slt") and strip_casts(strip_casts(c)[2]) == iv and
+                            strip_casts(c)[3][0] == "c" and strip_casts(c)[3][2] == N and t for c, t, i in p.conds)
+                arrivals = [q for s1, q in segs if q.end == "cut:" + s0 and s1 != s0]
+                from_argc = bool(arrivals) and all(
+                    paths.contains((getattr(q, "carried", None) or {}).get(iv[1], ("?",)),
+                                   lambda x: x[0] == "ld" and ptr_parts(x[1]) == (("arg", ca), argc_off, ())) for q in arrivals)
+                exits = [q for s1, q in segs if s1 == s0 and q.end == "ret"]
+                if stepped and bound and from_argc and exits:
+                    pad = True
+                # ... or every element from 1 on is pre-set by a counted loop that runs before anything is tokenised (it is the
+                # first loop the function enters)
+                first = bool(arrivals) and all(s1 == fn.entry.name for s1, q in segs if q.end == "cut:" + s0 and s1 != s0)
+                from_one = bool(arrivals) and all(strip_casts((getattr(q, "carried", None) or {}).get(iv[1], ("?",)))[0] == "c" and
+                                                  strip_casts(q.carried[iv[1]])[2] <= 1 for q in arrivals)
+                if stepped and bound and first and from_one:
+                    pad = True
+    ok = pad or set(range(1, N)) <= pre
+    chk.ob("K3.argv-complete", "do_tokenize[%s]" % cfg, ok,
+           "every element of argv is left pointing into the line buffer (%s)" % ("padding loop from argc to lengthof(argv)" if pad else
+                                                                                  "all of argv[1..%d] set before tokenising" % (N - 1)) if ok else
+           "the tokeniser does not set the elements of argv beyond argc (no padding loop from argc to %d, and only %s set beforehand): a "
+           "command that reads an argument the line did not supply gets a stale or NULL pointer instead of an empty string" % (N, sorted(pre)),
+           fn.loc, fn.name)
 
 
 def check_k8(chk, m, cfg, L):
@@ -1307,6 +1416,7 @@ def run(chk):
         check_k5_order(chk, m, cfg)
         check_k6_k7(chk, m, cfg)
         check_k8(chk, m, cfg, L)
+        check_argv_complete(chk, m, cfg, L)
         if cfg == "default":
             check_getch_sentinel(chk, m)
     # every delivery route goes through the console's ring buffer: its producer/consumer discipline is C05's
